@@ -9,6 +9,7 @@ for h in ${HDIR:-$V/seeded/harmless}/${HPAT:-*}.diff; do
   git -C $WT checkout -q -- . ; git -C $WT apply "$h" || { echo "$(basename $h): does not apply"; continue; }
   bad=""
   LIST="01 02 03 04 05 06 07 08 09 10 11 12 13 14 15 16 17 18 19"
+  [ -n "$HRELEVANT" ] && LIST=$(python3 $V/tools/relevant_checks.py "$h")     # only the checks that exercise a touched file
   [ "$1" = "--only-c20" ] && LIST=""
   for n in $LIST; do
     out=$(cd $V && VERIF_REPO=$WT VERIF_OUT=$HOUT VERIF_SKIP_BUILD=1 VERIF_JOBS=6 ./check C$n quick 2>&1); rc=$?
